@@ -354,6 +354,8 @@ let step_preds : (string * (vconfig -> fstep -> bool)) list = [
 ]
 let trace_preds : (string * (vconfig -> fstep list -> bool)) list = [
   ("c10_step_ok", c10_step_ok);
+  ("c04_vsock_ack_ok", c04_vsock_ack_ok);
+  ("c04_d19_class", c04_d19_class);
   ("c02_prompt", c02_prompt);
   ("c06_stable_plen_ok", c06_stable_plen_ok);
   ("c06_joint_ok", c06_joint_ok);
